@@ -166,9 +166,82 @@ def real_processes(rep, tier):
                       {"err": r.stderr[-600:]})
 
 
+def _mode_job(order):
+    """'With USE_MULTIPROCESSING=True set before the store is initialised': the mode belongs to the store that is being
+    initialised - also when another store (on the same directory or another one) was initialised in this interpreter
+    before with the other setting.  Observation through the layer: which kind of condition objects the instance's
+    store_object actually acquires."""
+    import os
+    from hashstore.filehashstore import FileHashStore
+    env.install()
+    env.reset_execution()
+    base = os.path.join(common.scratch(), "c16-mode")
+    import shutil
+    shutil.rmtree(base, ignore_errors=True)
+    os.makedirs(base)
+    data = os.path.join(base, "in.bin")
+    with open(data, "wb") as f:
+        f.write(b"mode probe")
+    res, n = [], 0
+
+    class Rec(env.BaseWorker):
+        def __init__(self):
+            super().__init__("T1")
+            self.locks = []
+
+        def point(self, op, pred=None):
+            if op[0] == "lock" and isinstance(op[2], int):
+                self.locks.append(op[2])
+
+    old = os.environ.get("USE_MULTIPROCESSING")
+    try:
+        for step, (rname, setting) in enumerate(order):
+            os.environ["USE_MULTIPROCESSING"] = setting
+            root = os.path.join(base, rname)
+            store = FileHashStore(common.props(root))
+            env.set_root(root)
+            w = Rec()
+            env.CUR.w = w
+            try:
+                store.store_object("pid-%d" % step, data)
+            finally:
+                env.CUR.w = None
+            owner = {}
+            for sh in env.STATE.shims:
+                if isinstance(sh, env.SCond):
+                    owner[sh.lock._id()] = type(sh).__name__
+            kinds = {owner.get(i, "lock") for i in w.locks} - {"lock"}
+            want = {"SCondMP"} if setting == "True" else {"SCond"}
+            n += 1
+            if kinds != want:
+                res.append(({"kind": "mode-at-initialisation",
+                             "what": "a store initialised with USE_MULTIPROCESSING=%s synchronises through %s conditions" % (
+                                 setting, "/".join(sorted(kinds)) or "no")},
+                            {"order": [list(x) for x in order], "step": step}))
+    finally:
+        if old is None:
+            os.environ.pop("USE_MULTIPROCESSING", None)
+        else:
+            os.environ["USE_MULTIPROCESSING"] = old
+    return n, res
+
+
+MODE_ORDERS = [
+    [("R1", "False"), ("R1", "True"), ("R1", "False"), ("R2", "True"), ("R2", "False"), ("R1", "True")],
+    [("R1", "True"), ("R1", "False"), ("R2", "False"), ("R2", "True"), ("R1", "True")],
+]
+
+
 def main(tier):
     rep = common.Report("C16", tier, "model_checking")
     real_processes(rep, tier)
+    from ..par import pmap as _pm
+    nm = 0
+    for cnt, res in _pm(_mode_job, MODE_ORDERS):
+        nm += cnt
+        for sig, det in res:
+            rep.violation(sig, det)
+    rep.coverage["mode_at_initialisation_cases"] = nm
     from .. import fscen
     from ..par import pmap
     nf = 0
